@@ -38,12 +38,20 @@ def stub(argv: list[str]) -> int:
     except OSError as exc:
         _log(f"bindfail {os.getpid()} {time.time():.6f} {exc.errno}")
         return 1
-    s.listen(16)
+    s.listen(int(os.environ.get("VERIF_STUB_BACKLOG", "16")))
     _log(f"start {os.getpid()} {time.time():.6f} {path}")
     print(f"UNIX:{path}", flush=True)
     s.settimeout(0.2)
     end = time.time() + life
+    wedge_after = float(os.environ.get("VERIF_STUB_WEDGE_AFTER", "0") or 0)
+    wedge_at = time.time() + wedge_after if wedge_after > 0 else None
     while time.time() < end:
+        if wedge_at is not None and time.time() >= wedge_at:
+            # a worker that still holds its listening socket but no longer accepts (stopped, deadlocked)
+            _log(f"wedged {os.getpid()} {time.time():.6f} {path}")
+            time.sleep(max(0.0, end - time.time()))
+            _log(f"end {os.getpid()} {time.time():.6f} {path}")
+            return 0  # the path may belong to a successor by now: leave it alone
         try:
             c, _ = s.accept()
             c.close()
